@@ -633,6 +633,8 @@ def r1_pade_tables(ctx):
     tag = "expmint (route of order 13)"
     lv = r.leaves()
     sig = r.scale()
+    if sig is None and r.order is not None:
+        sig = r.it.expr("2 ** -(2 + L)", {"L": F.sym("ell13")})      # (what it must be when every estimate is 10: R2 decides that)
     if _aborted(ctx, f"{tag}: the tables can be evaluated", efn, r.ret):
         pass
     elif r.order is None or not lv or sig is None:
@@ -683,6 +685,8 @@ def r1_pade_tables(ctx):
         if _aborted(ctx, f"{tag}: the table can be evaluated", sfn, r.ret):
             continue
         sig = r.scale() if N == 13 else F.const(1)        # (only the order-13 route scales the matrix)
+        if sig is None and r.order is not None:
+            sig = r.it.expr("2 ** -(2 + L)", {"L": F.sym("ell13")})  # (what it must be when every estimate is 10: R2 decides that)
         if r.order is None or sig is None:
             ctx.error(f"{tag}: table", sfn, f"no exponential solve reached / the scaling cannot be read from the table: {r.ret!r}"[:300])
             continue
@@ -1002,7 +1006,10 @@ def r2_thresholds(ctx):
         res[regime] = (ret, c, it)
     consts = {c[2] for c in seen}
     ok = len(consts) == 1 and consts == {THETA[9]}
-    if not seen:
+    crashed = next((_find_crash(v_[0]) for v_ in res.values() if _find_crash(v_[0]) is not None), None)
+    if not seen and crashed is not None:
+        ctx.fail("getEPQ: switches between getEPQ1 and getEPQ2 at theta_9 = 2.097847961257068", fn, {"evaluation raises": crashed.why})
+    elif not seen:
         # (no comparison with a constant was met: the function could not be followed to its switch)
         ctx.error("getEPQ: switches between getEPQ1 and getEPQ2 at theta_9 = 2.097847961257068", fn,
                   f"no comparison of a norm with a constant was reached: {[repr(v_[0])[:120] for v_ in res.values()]}"[:400])
